@@ -29,7 +29,7 @@ cd /repo
 git apply "$dir/patch.diff" || exit 2
 "$VERIF_DIR/bin/build.sh" >/dev/null 2>&1
 for id in $checks; do
-  out=$("$VERIF_DIR/build/vcheck" run "$id" quick 2>&1); rc=$?
+  out=$("$(vbin "$id")" run "$id" quick 2>&1); rc=$?
   n=$(echo "$out" | grep -c '^VIOLATION')
   first=$(echo "$out" | grep -m1 '^VIOLATION' | sed 's/replay=[^ ]* //' | cut -c1-200)
   echo "CHECK $id exit=$rc violations=$n $first"
